@@ -1,7 +1,9 @@
 (* Extraction of the C09 pointer / reference machine and matrix to OCaml (ExtrOcamlBasic + ExtrOcamlString only). *)
 From Coq Require Import Extraction ExtrOcamlBasic ExtrOcamlString.
-From Cb Require Import C09.ConstPtr C09.Model.
+From Cb Require Import C09.ConstPtr C09.Model C09.Paths C09.PathModel.
 Extraction Language OCaml.
 Extraction "C09/c09_model.ml" step run trace spec mech all_but all_sites mech_chk mech_eff scenario witness verdict_of
   all_kinds all_paths inv_b breaks
-  ref_chain alias_chain ptr_chain lists_upto ref_alpha ptr_alpha alias_finals all_proots proot_forms chain_expect mk_ptr.
+  ref_chain alias_chain ptr_chain lists_upto ref_alpha ptr_alpha alias_finals all_proots proot_forms chain_expect mk_ptr
+  pstep prun ptrace pspec pmech pall_but all_psites site_occurs pwitness ptwin set_cases sub_cases placements all_groots placed graph
+  leaf_paths node_paths steps classify sclassify exec_set exec_sub lv_of lpath root_of cells get set_reasons sub_reasons pbreaks.
